@@ -26,6 +26,9 @@ WClose(ret, f) ==
     /\ (ret = 1 /\ wok) => (f.valid /\ f.contentEq /\ f.total = wlen /\ f.cutsOk)
     /\ wclosed' = (ret = 1 /\ wok) /\ UNCHANGED <<wlen, wok, runs>>
 
+\* the process ended inside a call (allocation-failure families only): no success was reported, nothing is promised
+WAbort == wclosed' = FALSE /\ UNCHANGED <<wlen, wok, runs>>
+
 \* C12: a close on a context that has seen failed calls (and zck_clear_error): if it reports success, the output is a valid
 \* file whose content is the accepted writes - each failed write wholly in or wholly out - never something else
 WCloseX(ret, f) ==
